@@ -29,7 +29,7 @@ static int run_c15(uint64_t seed, long from, long to) {
     std::string sample;
     for (long it = from; it < to; it++) {
         hc::begin_case(std::to_string(it));
-        wd::arm(10, "c15-history");
+        wd::arm(30, "c15-history");
         Rng r(Rng::mix(seed, (uint64_t)it));
         UncompressedFile u; ByteModel m;
         uint32_t c = 1 + r.below(64);
@@ -153,7 +153,7 @@ static int run_c16(uint64_t seed, long from, long to) {
     const uint32_t UMAX = std::numeric_limits<uint32_t>::max();
     for (long it = from; it < to; it++) {
         hc::begin_case(std::to_string(it));
-        wd::arm(10, "c16-history");
+        wd::arm(30, "c16-history");
         Rng r(Rng::mix(seed ^ 0xC16, (uint64_t)it));
         std::ostringstream h; bool bad = false; uint64_t sig = 1469598103934665603ULL;
         long base_live = Tok::live;
